@@ -26,6 +26,8 @@ var c08UnOps = []string{"neg", "abs", "round", "floor", "ceiling", "truncate"}
 var c08IntBoundary = []int64{0, 1, -1, 2, -2, 46340, -46340, 46341, -46341, 65536, -65536, 2147483646, 2147483647, -2147483647, -2147483648}
 
 var c08DecBoundary = []string{
+	// non-zero values below the smallest float64 (a zero test through float64 sees 0)
+	"0." + strings.Repeat("0", 329) + "1", "-0." + strings.Repeat("0", 400) + "5", "0." + strings.Repeat("0", 30) + "1",
 	"0.0", "1.0", "1.00", "-1.0", "0.5", "1.5", "2.5", "-0.5", "-1.5", "-2.5", "0.1", "0.2", "0.3", "3.0",
 	"0.99999999999999999", "1.00000000000000001", "-0.99999999999999999",
 	"123456789012345678901234567890.123456789", "0.000000000000000000000000000001",
